@@ -1172,12 +1172,14 @@ func (vm *VM) xOpCallCompiled(cfunc *CompiledFunction, numArgs, flags int) error
 		}
 	}
 
-	frame := &(vm.frames[vm.frameIndex])
-	vm.frameIndex++
-
-	if vm.frameIndex > frameSize-1 {
+	if vm.frameIndex+1 > frameSize-1 {
+		// the frame index is left unchanged: the error may be caught in
+		// the calling frame, which goes on and returns as usual
 		return ErrStackOverflow
 	}
+
+	frame := &(vm.frames[vm.frameIndex])
+	vm.frameIndex++
 
 	frame.fn = cfunc
 	frame.freeVars = cfunc.Free
